@@ -80,3 +80,10 @@
 (declare-const codecJSON Int)
 (declare-const codecYAML Int)
 (declare-const codecTOML Int)
+; regular expressions (assumed contract of package regexp): rePat r is the source of a compiled expression;
+; reMatches p s are the successive leftmost matches of p in s; reSubst p s rs is s with the i-th match replaced by
+; the i-th element of rs and everything else kept; strTrim is strings.Trim
+(declare-fun rePat (Int) String)
+(declare-fun reMatches (String String) SLst)
+(declare-fun reSubst (String String SLst) String)
+(declare-fun strTrim (String String) String)
